@@ -224,6 +224,12 @@ def load_one(lit: LineIterator) -> dict:
     for lot in "MP2", "MP3", "CC", "CI":
         _load_dm(f"Total {lot} Density", fchk, one_rdms, "post_scf_ao")
         _load_dm(f"Spin {lot} Density", fchk, one_rdms, "post_scf_spin_ao")
+    for key, dm in one_rdms.items():
+        if dm.shape != (nbasis, nbasis):
+            raise LoadError(
+                f"The size of density matrix '{key}' does not match the number of basis functions.",
+                lit,
+            )
     if one_rdms:
         result["one_rdms"] = one_rdms
 
@@ -286,6 +292,9 @@ def load_one(lit: LineIterator) -> dict:
         atcharges["hirshfeld"] = fchk["Type 6 Charges"]
     if "Type 7 Charges" in fchk:
         atcharges["cm5"] = fchk["Type 7 Charges"]
+    for key, charges in atcharges.items():
+        if np.shape(charges) != np.shape(fchk["Atomic numbers"]):
+            raise LoadError(f"The number of '{key}' charges does not match the number of atoms.", lit)
     if atcharges:
         result["atcharges"] = atcharges
 
